@@ -12,6 +12,7 @@ import (
 	_ "verif/props/c09"
 	_ "verif/props/c10"
 	_ "verif/props/c15"
+	_ "verif/props/c16"
 	_ "verif/props/c19"
 	_ "verif/props/c20"
 	_ "verif/props/smoke"
